@@ -91,6 +91,11 @@ PLANS["C14"] = {
     "thorough": [J("c14-classifiers", "thorough", 600, test="TestE3"), J("errclass", "p=2,f=2,s=1,sel=1", 600), J("reqresp", "p=2,f=2,sel=1", 400), J("shutdown2", "p=1,f=1,s=1,sel=1", 300)],
 }
 
+PLANS["C16"] = {
+    "quick": [J("damage1", "c=1,s=1", 90)],
+    "thorough": [J("damage1", "c=1,s=2,p=1", 600), J("damage2", "c=1,f=1,s=1", 900)],
+}
+
 LEVELS = {}
 
 ASSUMPTIONS = {
